@@ -274,6 +274,21 @@ def ControlBlock.parse (b : Bytes) : Option ControlBlock :=
         let m := (len - Gen.cbCountSub) / Gen.cbCountDiv
         some { version := version, parity := parity, internal := internal, hashes := cbChunks b m 0 }
 
+/-- the commitment test of the script-path branch of Script.evaluate (buidl/script.py, witness program
+    version 1): the control block parses, the key recomputed from it and the tap script has the parity
+    recorded in the block (`tweak_point.parity != control_block.parity` → False) and the x-only encoding
+    found in the output (`tweak_point.xonly() != stack.pop()` → False).  Any exception is a refusal. -/
+def cbAccepts (H : Hashes) (b : Bytes) (s : Script) (qx : Bytes) : Bool :=
+  match ControlBlock.parse b with
+  | none => false
+  | some cb =>
+    match cb.externalPubkey H s with
+    | none => false
+    | some q =>
+      match parityOf q with
+      | none => false
+      | some par => par == cb.parity && xonly q == qx
+
 /-! ### witness.py -/
 
 /-- Witness.has_annex as a truth value: `len(items) and items[-1][0] == 0x50`
